@@ -258,7 +258,7 @@ def besthand_check(prop, tier, seed, work, replay):
     q = tier == "quick"
     mcs = [generic_mc(work, "MCRank.tla", "mcrank0", dict(RankSet="{2,3,4,5,6,14}", Tables='{"standard","short"}'), invariants=["Iso"])]
     dr = ec.Drive(work, binary)
-    dr.generic("deal", "holdem-deal", ["-runs", 260 if q else 6000, "-seed", seed])
+    dr.generic("deal", "holdem-deal", ["-runs", 500 if q else 6000, "-seed", seed])
     dr.random("random", 220 if q else 3000, seed * 1000 + 11, [], runbase=0)
     simfile = os.path.join(dr.d, "sim.scripts")
     nsim = ec.sim_scripts(work, 60 if q else 600, seed, simfile, 5000000)
